@@ -51,7 +51,10 @@ func Form(c pdf.Cursor, obj pdf.Object, _ bool) (*form.Form, error) {
 	}
 	dict := stream.Dict
 
-	subtypeName, _ := c.Name(dict["Subtype"])
+	subtypeName, err := c.Name(dict["Subtype"])
+	if pdf.IsReadError(err) {
+		return nil, err
+	}
 	if subtypeName != "Form" {
 		return nil, &pdf.MalformedFileError{
 			Err: errors.New("invalid Subtype for form XObject"),
@@ -70,10 +73,15 @@ func Form(c pdf.Cursor, obj pdf.Object, _ bool) (*form.Form, error) {
 		BBox: *bbox,
 	}
 
-	f.Name, _ = c.Name(dict["Name"])
+	f.Name, err = c.Name(dict["Name"])
+	if pdf.IsReadError(err) {
+		return nil, err
+	}
 
 	f.Matrix, err = c.Matrix(dict["Matrix"])
-	if err != nil {
+	if pdf.IsReadError(err) {
+		return nil, err
+	} else if err != nil {
 		f.Matrix = matrix.Identity
 	}
 
